@@ -779,6 +779,7 @@ func judgeProxy(w *proxyWorld, res *Result) {
 		judgeSequential(w, res)
 	case "coal", "trouble":
 		judgeConcurrent(w, res)
+		judgeFreshnessConcurrent(w, res)
 	case "range":
 		judgeRange(w, res)
 	case "relay":
@@ -1005,4 +1006,85 @@ func dateValidator(h http.Header) string {
 		return ""
 	}
 	return lm
+}
+
+// judgeFreshnessConcurrent: C03's "reused only while fresh" and C06's "a 304 renews the stored
+// response" in the worlds where several clients act at once. For the simple case only - the origin
+// states one max-age, no Expires, no skewed Date, the policy switches are off and stay as they are -
+// the lifetime of every origin response is known exactly: it begins when the response was given and
+// is renewed, for the configured default, by every 304 that was given to ITS validator. An answer
+// built from the store without an origin contact of its own must fall inside that lifetime.
+func judgeFreshnessConcurrent(w *proxyWorld, res *Result) {
+	p := w.p
+	if p.IgnoreCC || p.ForceDef {
+		return
+	}
+	for _, cl := range p.Clients {
+		for _, q := range cl {
+			if q.Cfg != "" {
+				return // run-time changes of the policy: the sequential model's business
+			}
+		}
+	}
+	pd := planDesc(p)
+	const slack = 2 * time.Second // one-second resolution of lifetimes and labels
+	// A lifetime counts from the instant the proxy stored (or renewed) the response. That instant
+	// is not visible from outside; it lies before the instant the client that caused the fetch had
+	// the head of its answer (the clock may jump between the origin's answer and the store).
+	headAt := map[int]time.Time{}
+	for _, e := range w.exch {
+		if !e.Sent || e.HdrT.IsZero() {
+			continue
+		}
+		for _, c := range w.contacts(e) {
+			if t, ok := headAt[c.N]; !ok || e.HdrT.After(t) {
+				headAt[c.N] = e.HdrT
+			}
+		}
+	}
+	for _, ex := range w.exch {
+		if !ex.Sent || !ex.Complete || ex.Method != "GET" || ex.Status != 200 || ex.Req.Range != "" || ex.Req.Raw != "" {
+			continue
+		}
+		r := &p.Res[ex.Req.Res]
+		if len(r.CC) != 1 || !strings.HasPrefix(r.CC[0], "max-age=") || r.Expires != "" || r.DateSkewS != 0 || r.Redirect > 0 {
+			continue
+		}
+		maxAge, err := strconv.Atoi(strings.TrimPrefix(r.CC[0], "max-age="))
+		if err != nil || maxAge <= 0 {
+			continue
+		}
+		if len(w.contacts(ex)) > 0 {
+			continue // this exchange went to the origin itself
+		}
+		o := w.attrib(ex)
+		if o == nil || o.Status != 200 {
+			continue
+		}
+		base, known := headAt[o.N]
+		if !known {
+			continue // whoever caused that fetch went away before its answer: no bound on the store instant
+		}
+		res.Evals++
+		until := base.Add(time.Duration(maxAge) * time.Second)
+		etag, lm := o.RespHdr.Get("ETag"), dateValidator(o.RespHdr)
+		for _, c := range w.olog {
+			if c.Res != o.Res || !c.Cond || c.Status != 304 || c.T.After(ex.SendT) {
+				continue
+			}
+			inm, ims := c.Hdr.Get("If-None-Match"), c.Hdr.Get("If-Modified-Since")
+			if (etag != "" && inm == etag) || (etag == "" && lm != "" && ims == lm) {
+				rb, ok := headAt[c.N]
+				if !ok {
+					rb = ex.SendT // renewed at an unknown instant before this request: no claim
+				}
+				if t := rb.Add(time.Duration(p.DefaultAgeS) * time.Second); t.After(until) {
+					until = t
+				}
+			}
+		}
+		if ex.SendT.After(until.Add(slack)) {
+			res.violate("C03.a", "served-from-the-store-after-its-lifetime (concurrent clients)", "%s at +%v was answered from the store with origin response #%d (version %d, max-age=%d, stored by +%v at the latest) without an origin contact; that response, counting every 304 given to its own validator, was fresh until +%v at the latest [%s]", reqDesc(ex), ex.SendT.Sub(w.start).Round(time.Millisecond), o.N, o.Ver, maxAge, base.Sub(w.start).Round(time.Millisecond), until.Sub(w.start).Round(time.Millisecond), pd)
+		}
+	}
 }
